@@ -76,18 +76,26 @@ def strategy(draw, tier="quick"):
             "seed": draw(st.integers(0, 2))}
     if draw(st.integers(0, 2)) == 0:
         case["atoms"] = sorted(set(draw(st.lists(st.integers(0, na - 1), min_size=1, max_size=4))))
+    long_ = fmt not in ("arc", "dtr") and draw(st.integers(0, 14)) == 0
+    if long_:
+        # a long file: more frames than an internal block / index page is likely to hold; positions around 256 and 512
+        case.update(nf=draw(st.sampled_from([513, 600])), na=3, seed=0, long=True)
+        if "atoms" in case:
+            case["atoms"] = [0, 2]
     n = _nframes(case)
     nh = draw(st.sampled_from([1, 1, 2]))
+    posn = st.sampled_from([0, 1, 255, 256, 257, 511, 512, n - 1]) if long_ else st.integers(0, n - 1)
+    rsize = st.sampled_from([1, 2, 3, 100, 256, 300]) if long_ else st.integers(1, 4)
     op = st.one_of(
-        st.tuples(st.just("read"), st.integers(1, 4)),
-        st.tuples(st.just("read"), st.integers(1, 4)),
+        st.tuples(st.just("read"), rsize),
+        st.tuples(st.just("read"), rsize),
         st.tuples(st.just("readall")),
-        st.tuples(st.just("seek"), st.integers(0, n - 1)),
-        st.tuples(st.just("seekrel"), st.integers(0, n - 1)),   # target position; the delta is derived from the model
-        st.tuples(st.just("seekend"), st.integers(0, n - 1)),   # seek(target - len, 2): documented for some formats, refused by others
+        st.tuples(st.just("seek"), posn),
+        st.tuples(st.just("seekrel"), posn),   # target position; the delta is derived from the model
+        st.tuples(st.just("seekend"), posn),   # seek(target - len, 2): documented for some formats, refused by others
         st.tuples(st.just("tell")),
         st.tuples(st.just("len")))
-    ops = draw(st.lists(st.tuples(st.integers(0, nh - 1), op), min_size=1, max_size=25))
+    ops = draw(st.lists(st.tuples(st.integers(0, nh - 1), op), min_size=1, max_size=10 if long_ else 25))
     case["ops"] = [[h] + list(o) for h, o in ops]
     if fmt == "trr":
         # TRR refuses seeks from the end (position unchanged); keeping the region of its open finding computable from the
@@ -172,7 +180,7 @@ def _open(fn, case):
 
 def run_case(case):
     fmt = case["fmt"]
-    viol, labels = [], ["fmt:" + fmt] + list(case.get("excluded", []))
+    viol, labels = [], ["fmt:" + fmt] + list(case.get("excluded", [])) + (["long-file"] if case.get("long") else [])
     if fmt == "arc":
         fn = os.path.join(files.VERIF, ARC)
         na_file = None
